@@ -2,6 +2,8 @@ import Mathlib.Algebra.Order.Archimedean.Real.Basic
 import Mathlib.Tactic.Linarith
 import Mathlib.Tactic.FieldSimp
 import Mathlib.Tactic.Positivity
+import Mathlib.Tactic.NormNum
+import Mathlib.Analysis.SpecialFunctions.Log.Basic
 /-
   C11 — the scaled-integer float encoder (`_encode_one_float_array`, pickler.py:620-651, and
   `_decode_scaled_uints`, pickler.py:711-734) over the REAL numbers: float rounding inside the
@@ -107,6 +109,183 @@ theorem constant_exact (c : ℝ) (xs : List ℝ) (h : ∀ x ∈ xs, x = c) :
   | cons x xs ih =>
     simp only [List.map_cons]
     rw [ih (fun y hy => h y (by simp [hy])), h x (by simp)]
+
+/-! ### the single-precision shortcut (pickler.py `_encode_one_float_array`, after the repair) -/
+
+/-- **float32 shortcut**: the shortcut is taken only when `precision ≥ max|x| · c` with
+    `c = 10^(−SINGLE_DIGITS) = 2⁻²³`; under the rounding contract of IEEE binary32
+    (`|fl32(x) − x| ≤ 2⁻²⁴·|x|`, a hypothesis: no overflow / underflow) every restored value is
+    within `precision = ref · 10^(−digits)`, whatever the reference -/
+theorem float32_shortcut_bound (x fl maxabs precision c : ℝ)
+    (hx : |x| ≤ maxabs) (hfl : |fl - x| ≤ (2 : ℝ)⁻¹ ^ 24 * |x|) (hc : (2 : ℝ)⁻¹ ^ 24 ≤ c)
+    (hgate : maxabs * c ≤ precision) : |fl - x| ≤ precision := by
+  have h0 : 0 ≤ |x| := abs_nonneg x
+  have h24 : (0 : ℝ) ≤ (2 : ℝ)⁻¹ ^ 24 := by positivity
+  calc |fl - x| ≤ (2 : ℝ)⁻¹ ^ 24 * |x| := hfl
+    _ ≤ c * maxabs := by
+        apply mul_le_mul hc hx h0 (le_trans h24 hc)
+    _ = maxabs * c := by ring
+    _ ≤ precision := hgate
+
+/-- the condition of the pinned tree (and of a mutant gating on the reference value instead of
+    the largest magnitude) is NOT enough: reference 1 ('smallest'), a value of 400 rounded
+    within the binary32 contract, precision `1·2⁻²³` — the error exceeds the precision -/
+theorem float32_old_gate_counterexample :
+    ∃ x fl ref precision c : ℝ, |fl - x| ≤ (2 : ℝ)⁻¹ ^ 24 * |x| ∧ c = (2 : ℝ)⁻¹ ^ 23 ∧
+      ref * c ≤ precision ∧ ¬ |fl - x| ≤ precision := by
+  refine ⟨400, 400 + (2 : ℝ)⁻¹ ^ 24 * 400, 1, (2 : ℝ)⁻¹ ^ 23, (2 : ℝ)⁻¹ ^ 23, ?_, rfl, by norm_num, ?_⟩
+  · rw [add_sub_cancel_left, abs_of_pos (by positivity), abs_of_pos (by norm_num : (0 : ℝ) < 400)]
+  · rw [add_sub_cancel_left, abs_of_pos (by positivity)]
+    norm_num
+
+/-! ### reference values (pickler.py `_encode_one_float_array`: 'smallest', 'largest', 'mean',
+    'median', 'logmean' of the non-zero absolute values) -/
+
+/-- `np.abs(raveled[raveled != 0.])` -/
+noncomputable def absNonzero (xs : List ℝ) : List ℝ := (xs.filter (· ≠ 0)).map (|·|)
+
+/-- `np.min` / `np.max` of a non-empty list (first element as seed) -/
+noncomputable def lmin : List ℝ → ℝ
+  | [] => 0
+  | [a] => a
+  | a :: b :: l => min a (lmin (b :: l))
+noncomputable def lmax : List ℝ → ℝ
+  | [] => 0
+  | [a] => a
+  | a :: b :: l => max a (lmax (b :: l))
+/-- `np.mean` -/
+noncomputable def lmean (l : List ℝ) : ℝ := l.sum / l.length
+/-- `np.exp(np.mean(np.log(a)))` -/
+noncomputable def llogmean (l : List ℝ) : ℝ := Real.exp (lmean (l.map Real.log))
+/-- `np.median` of an already sorted list: the middle element, or the mean of the two middle ones -/
+noncomputable def medianSorted (s : List ℝ) : ℝ :=
+  if s.length % 2 = 1 then s.getD (s.length / 2) 0
+  else (s.getD (s.length / 2 - 1) 0 + s.getD (s.length / 2) 0) / 2
+
+theorem absNonzero_pos (xs : List ℝ) : ∀ a ∈ absNonzero xs, 0 < a := by
+  intro a ha
+  simp only [absNonzero, List.mem_map, List.mem_filter, decide_eq_true_eq] at ha
+  obtain ⟨x, ⟨_, hx⟩, rfl⟩ := ha
+  exact abs_pos.mpr hx
+
+theorem lmin_le : ∀ (l : List ℝ) (a : ℝ), a ∈ l → lmin l ≤ a
+  | [], a, h => by simp at h
+  | [b], a, h => by simp at h; simp [lmin, h]
+  | b :: c :: l, a, h => by
+    simp only [lmin]
+    rcases List.mem_cons.mp h with h | h
+    · rw [h]; exact min_le_left _ _
+    · exact le_trans (min_le_right _ _) (lmin_le (c :: l) a h)
+
+theorem le_lmax : ∀ (l : List ℝ) (a : ℝ), a ∈ l → a ≤ lmax l
+  | [], a, h => by simp at h
+  | [b], a, h => by simp at h; simp [lmax, h]
+  | b :: c :: l, a, h => by
+    simp only [lmax]
+    rcases List.mem_cons.mp h with h | h
+    · rw [h]; exact le_max_left _ _
+    · exact le_trans (le_lmax (c :: l) a h) (le_max_right _ _)
+
+theorem sum_bounds (lo hi : ℝ) : ∀ (l : List ℝ), (∀ a ∈ l, lo ≤ a ∧ a ≤ hi) →
+    lo * l.length ≤ l.sum ∧ l.sum ≤ hi * l.length
+  | [], _ => by simp
+  | a :: l, h => by
+    obtain ⟨h1, h2⟩ := sum_bounds lo hi l (fun b hb => h b (List.mem_cons_of_mem _ hb))
+    obtain ⟨ha1, ha2⟩ := h a (by simp)
+    simp only [List.sum_cons, List.length_cons, Nat.cast_add, Nat.cast_one]
+    constructor <;> nlinarith
+
+/-- the mean of a non-empty list lies between any bounds of its elements -/
+theorem lmean_between (lo hi : ℝ) (l : List ℝ) (hne : l ≠ []) (h : ∀ a ∈ l, lo ≤ a ∧ a ≤ hi) :
+    lo ≤ lmean l ∧ lmean l ≤ hi := by
+  obtain ⟨h1, h2⟩ := sum_bounds lo hi l h
+  have hlen : (0 : ℝ) < l.length := by
+    have : 0 < l.length := List.length_pos_iff.mpr hne
+    exact_mod_cast this
+  unfold lmean
+  constructor
+  · rw [le_div_iff₀ hlen]; exact h1
+  · rw [div_le_iff₀ hlen]; exact h2
+
+/-- 'smallest' ≤ every non-zero magnitude ≤ 'largest': with reference 'smallest' the absolute
+    precision `smallest·10^(−d)` is at most `|x|·10^(−d)` for EVERY non-zero value (each value keeps
+    at least `d` digits); with 'largest' it is relative to the largest magnitude -/
+theorem smallest_largest (xs : List ℝ) (x : ℝ) (hx : x ∈ xs) (h0 : x ≠ 0) :
+    lmin (absNonzero xs) ≤ |x| ∧ |x| ≤ lmax (absNonzero xs) := by
+  have hm : |x| ∈ absNonzero xs := by
+    simp only [absNonzero, List.mem_map, List.mem_filter, decide_eq_true_eq]
+    exact ⟨x, ⟨hx, h0⟩, rfl⟩
+  exact ⟨lmin_le _ _ hm, le_lmax _ _ hm⟩
+
+/-- 'mean' lies between 'smallest' and 'largest' -/
+theorem mean_between (l : List ℝ) (hne : l ≠ []) : lmin l ≤ lmean l ∧ lmean l ≤ lmax l :=
+  lmean_between _ _ l hne (fun a ha => ⟨lmin_le l a ha, le_lmax l a ha⟩)
+
+/-- 'logmean' of positive values lies between 'smallest' and 'largest' -/
+theorem logmean_between (l : List ℝ) (hne : l ≠ []) (hpos : ∀ a ∈ l, 0 < a) :
+    lmin l ≤ llogmean l ∧ llogmean l ≤ lmax l := by
+  have hmin_mem : ∀ (l : List ℝ), l ≠ [] → lmin l ∈ l ∧ lmax l ∈ l := by
+    intro l
+    induction l with
+    | nil => intro h; exact absurd rfl h
+    | cons a t ih =>
+      intro _
+      cases t with
+      | nil => simp [lmin, lmax]
+      | cons b t =>
+        obtain ⟨h1, h2⟩ := ih (by simp)
+        simp only [lmin, lmax]
+        constructor
+        · rcases min_choice a (lmin (b :: t)) with h | h <;> rw [h]
+          · simp
+          · exact List.mem_cons_of_mem _ h1
+        · rcases max_choice a (lmax (b :: t)) with h | h <;> rw [h]
+          · simp
+          · exact List.mem_cons_of_mem _ h2
+  obtain ⟨hmn, hmx⟩ := hmin_mem l hne
+  have hminpos := hpos _ hmn
+  have hmaxpos := hpos _ hmx
+  have hb : ∀ y ∈ l.map Real.log, Real.log (lmin l) ≤ y ∧ y ≤ Real.log (lmax l) := by
+    intro y hy
+    obtain ⟨a, ha, rfl⟩ := List.mem_map.mp hy
+    exact ⟨Real.log_le_log hminpos (lmin_le l a ha), Real.log_le_log (hpos a ha) (le_lmax l a ha)⟩
+  obtain ⟨h1, h2⟩ := lmean_between _ _ (l.map Real.log) (by simpa using hne) hb
+  unfold llogmean
+  constructor
+  · calc lmin l = Real.exp (Real.log (lmin l)) := (Real.exp_log hminpos).symm
+      _ ≤ _ := Real.exp_le_exp.mpr h1
+  · calc _ ≤ Real.exp (Real.log (lmax l)) := Real.exp_le_exp.mpr h2
+      _ = lmax l := Real.exp_log hmaxpos
+
+/-- 'median' (of the sorted values) lies between any bounds of the elements -/
+theorem median_between (lo hi : ℝ) (s : List ℝ) (hne : s ≠ []) (h : ∀ a ∈ s, lo ≤ a ∧ a ≤ hi) :
+    lo ≤ medianSorted s ∧ medianSorted s ≤ hi := by
+  have hlen : 0 < s.length := List.length_pos_iff.mpr hne
+  have hget : ∀ i, i < s.length → lo ≤ s.getD i 0 ∧ s.getD i 0 ≤ hi := by
+    intro i hi'
+    have : s.getD i 0 = s[i] := by simp [List.getD_eq_getElem?_getD, hi']
+    rw [this]; exact h _ (List.getElem_mem hi')
+  unfold medianSorted
+  split
+  · exact hget _ (Nat.div_lt_self hlen (by norm_num))
+  · obtain ⟨a1, a2⟩ := hget (s.length / 2 - 1) (by omega)
+    obtain ⟨b1, b2⟩ := hget (s.length / 2) (Nat.div_lt_self hlen (by norm_num))
+    constructor <;> linarith
+
+/-- `np.median`: sort, then take the middle -/
+noncomputable def lmedian (l : List ℝ) : ℝ := medianSorted (l.mergeSort fun a b => decide (a ≤ b))
+
+/-- 'median' lies between 'smallest' and 'largest' -/
+theorem lmedian_between (l : List ℝ) (hne : l ≠ []) : lmin l ≤ lmedian l ∧ lmedian l ≤ lmax l := by
+  unfold lmedian
+  apply median_between
+  · intro h
+    have := congrArg List.length h
+    simp at this
+    exact hne this
+  · intro a ha
+    have ha' : a ∈ l := List.mem_mergeSort.mp ha
+    exact ⟨lmin_le l a ha', le_lmax l a ha'⟩
 
 /-- non-vacuity: one byte, values in [0, 10] -/
 example : |decode 0 (10 - 0) 0 1 (encode 0 (10 - 0) 0 1 3.3) - 3.3| ≤ (10 - 0) / (2 * (256 : ℝ) ^ 1 * (1 - 0)) :=
